@@ -32,6 +32,7 @@ def load_variants():
 
 def run_variant(args):
     v, with_tests = args
+    t_start = time.time()
     tmp = tempfile.mkdtemp(prefix='yaql-st-%d-' % os.getpid())
     res = {'id': v['id'], 'prop': v['prop'], 'expect': v['expect'],
            'rule': v.get('rule', ''), 'note': v.get('note', '')}
@@ -86,6 +87,7 @@ def run_variant(args):
         else:
             ok = worst == 0
         res['status'] = 'ok' if ok else 'MISMATCH'
+        res['seconds'] = round(time.time() - t_start, 1)
         if with_tests:
             r = subprocess.run(
                 ['/venv/bin/python', '-m', 'pytest', '-q', '-x', '-p',
